@@ -67,6 +67,17 @@ func (g *Gen) query(o *Oblig, extra string) string {
 	for _, i := range o.Hide {
 		skip[i] = true
 	}
+	if g.topC != nil && g.topC.Sliced {
+		// cone of influence: keep only the context lines that share a (non-logical) symbol, directly or through
+		// other kept lines, with the goal. Dropping hypotheses is always sound; what is dropped here cannot
+		// take part in a refutation of the goal unless it is inconsistent on its own.
+		keep := sliceContext(g.defs[:n], skip, o.Guard+" "+o.Prop+" "+extra)
+		for i := range g.defs[:n] {
+			if !keep[i] {
+				skip[i] = true
+			}
+		}
+	}
 	for i, d := range g.defs[:n] {
 		if skip[i] {
 			continue
@@ -538,4 +549,74 @@ func rewriteMul(s string) string {
 		parts[0] = rewriteMul(parts[0])
 	}
 	return "(" + strings.Join(parts, " ") + ")"
+}
+
+
+// symbols of an SMT-LIB line that were introduced by the generator: |quoted| names and q_/lq_ bound names are
+// enough (every generated constant is quoted)
+func quotedSymbols(s string) []string {
+	var out []string
+	for i := 0; i < len(s); i++ {
+		if s[i] == '|' {
+			j := strings.IndexByte(s[i+1:], '|')
+			if j < 0 {
+				break
+			}
+			out = append(out, s[i:i+j+2])
+			i += j + 1
+		}
+	}
+	return out
+}
+
+func sliceContext(defs []string, skip map[int]bool, goal string) map[int]bool {
+	keep := map[int]bool{}
+	syms := map[string]bool{}
+	for _, x := range quotedSymbols(goal) {
+		syms[x] = true
+	}
+	lineSyms := make([][]string, len(defs))
+	for i, d := range defs {
+		if skip[i] {
+			continue
+		}
+		lineSyms[i] = quotedSymbols(d)
+		if len(lineSyms[i]) == 0 {
+			keep[i] = true // ground axioms, declarations without generated symbols
+		}
+	}
+	// heap component versions connect everything with everything: they do not propagate relevance on
+	// their own (a line is pulled in by a value symbol it shares, and then brings its heap versions along)
+	isHeap := func(x string) bool { return strings.HasPrefix(x, "|H_") || strings.HasPrefix(x, "|hv_") }
+	for changed := true; changed; {
+		changed = false
+		for i := range defs {
+			if skip[i] || keep[i] {
+				continue
+			}
+			hit := false
+			for _, x := range lineSyms[i] {
+				if syms[x] && !isHeap(x) {
+					hit = true
+					break
+				}
+			}
+			if !hit {
+				// a definition of a heap version that is already needed
+				if strings.HasPrefix(defs[i], "(assert (= |H_") {
+					if name := quotedSymbols(defs[i]); len(name) > 0 && syms[name[0]] {
+						hit = true
+					}
+				}
+			}
+			if hit {
+				keep[i] = true
+				changed = true
+				for _, x := range lineSyms[i] {
+					syms[x] = true
+				}
+			}
+		}
+	}
+	return keep
 }
